@@ -424,7 +424,7 @@ impl State {
     }
 
     fn log(&self, ev: Ev) {
-        self.log.lock().unwrap().push(self.id, self.cursor, ev);
+        self.log.lock().unwrap_or_else(|e| e.into_inner()).push(self.id, self.cursor, ev);
     }
 
     fn next_read_chunk(&mut self) -> usize {
